@@ -134,6 +134,31 @@ func gen(t *tl.T) {
 		t.Fail("parseArray no longer sets Range.End in a defer")
 	}
 
+	// printer.interpolationBoxes: is the reserved-keyword lower-casing restricted to key position (`p.inKey`)?
+	ib := t.Func("d2format/format.go", "printer", "interpolationBoxes")
+	lowerOnlyInKey, lowers := false, false
+	ast.Inspect(ib.Body, func(n ast.Node) bool {
+		ifs, ok := n.(*ast.IfStmt)
+		if !ok {
+			return true
+		}
+		body := t.Src(ifs.Body)
+		if strings.Contains(body, "ReservedKeywords[strings.ToLower(") {
+			cond := t.Src(ifs.Cond)
+			if strings.Contains(cond, "isDoubleString") {
+				lowers = true
+				lowerOnlyInKey = strings.Contains(cond, "p.inKey")
+			}
+		}
+		return true
+	})
+	if !lowers {
+		t.Fail("interpolationBoxes no longer lower-cases reserved keywords under an `!isDoubleString` test")
+	}
+	// d2ast.RawString: does the key branch quote strings that are reserved keywords only up to case?
+	rs := t.Func("d2ast/d2ast.go", "", "RawString")
+	rawQuotes := strings.Contains(t.Src(rs.Body), "ReservedKeywords[l]")
+
 	t.P("namespace D2V.Gen.FmtKw\n\n")
 	t.P("/-- d2ast.ReservedKeywords (union built by keywords.go init) -/\ndef reservedKeywords : List (List Char) :=\n  %s\n\n", charsList(all))
 	t.P("/-- d2ast.BoardKeywords -/\ndef boardKeywords : List (List Char) :=\n  %s\n\n", charsList(boards))
@@ -142,7 +167,9 @@ func gen(t *tl.T) {
 	t.P("/-- printer._map calls IsBoardNode (board nodes are deferred to the end of their map) -/\ndef mapDefersBoards : Bool := %v\n\n", defers)
 	t.P("/-- printer._map still has the `Start.Line != 0` rule for the blank line before a deferred board -/\ndef mapLine0Rule : Bool := %v\n\n", line0Rule)
 	t.P("/-- d2parser.parseArray takes Range.End from the look-ahead position (`&p.readerPos`) instead of `&p.pos` -/\ndef arrayEndFromReaderPos : Bool := %v\n\n", endField != "&p.pos")
+	t.P("/-- printer.interpolationBoxes lower-cases unquoted reserved keywords only in key position (`&& p.inKey`) -/\ndef lowerOnlyInKey : Bool := %v\n\n", lowerOnlyInKey)
+	t.P("/-- d2ast.RawString (key mode) double-quotes a string that is a reserved keyword only up to letter case -/\ndef rawStringQuotesKeywordCase : Bool := %v\n\n", rawQuotes)
 	t.P("end D2V.Gen.FmtKw\n")
-	t.Fact("FmtKw: %d reserved keywords, board keywords %v, IsBoardNode labels %v, _map literals %v, defers=%v line0Rule=%v parseArray.End<-%s",
-		len(all), boards, labels, cmp, defers, line0Rule, endField)
+	t.Fact("FmtKw: %d reserved keywords, board keywords %v, IsBoardNode labels %v, _map literals %v, defers=%v line0Rule=%v parseArray.End<-%s lowerOnlyInKey=%v rawStringQuotesKeywordCase=%v",
+		len(all), boards, labels, cmp, defers, line0Rule, endField, lowerOnlyInKey, rawQuotes)
 }
